@@ -433,9 +433,18 @@ def x3(ctx):
                 k = (f.qual, site, st.text)
                 if k in inst:
                     continue
+                if st.offset is not None:
+                    inst[k] = (False, 'the query pages with LIMIT/OFFSET: rows inserted or deleted between two pages '
+                               '(by this loop or by another client) shift the window, so rows are skipped or seen '
+                               'twice', ev, f, fmt_trace(tr), dirs)
+                    continue
                 if not cur:
                     # the same page query re-issued with no cursor: sound only if the visited rows are gone
                     if list(params) != list(prev.d.get('params') or []):
+                        if st.limit[0] == 'param':
+                            inst[k] = (False, 'a LIMIT ? query is re-issued in a loop with parameters that are not '
+                                       'taken from the last row of the previous page (unrecognised paging scheme)',
+                                       ev, f, fmt_trace(tr), dirs)
                         continue
                     deleted = any(e.kind == 'SQL' and e.d['stmt'] is not None and e.d['stmt'].kind == 'delete'
                                   and prev.seq < e.seq < ev.seq for e in tr)
@@ -520,3 +529,51 @@ def _top_conj(w, col):
     if w[0] == 'and':
         return _top_conj(w[1], col) or _top_conj(w[2], col)
     return w[0] == 'cmp' and (sqlmod.colname(w[2]) == col or sqlmod.colname(w[3]) == col)
+
+
+# ---------------------------------------------------------------------- X4
+@rule('X4', floor=8, title='liveness is decided with a clock read after the write lock was obtained, not before waiting for it')
+def x4(ctx):
+    """A visibility decision taken inside a transaction block must compare
+    expire_time with a clock value read inside that block: the wait for the
+    lock is unbounded (retry=True), and an item that expires during the wait
+    would otherwise be treated as live."""
+    res = {}
+    for f in core_entries(ctx):
+        if f.cls != 'Cache':
+            continue
+        for p in ctx.paths(f, 'default'):
+            if p.kind == 'cut':
+                continue
+            tr = p.trace
+            enter_seq = {e.d['inst']: e.seq for e in tr if e.kind == 'TXN_ENTER'}
+            for ev in tr:
+                clocks = []
+                if ev.kind == 'TEST' and ev.txn:
+                    a = _py_atom_cases(ev)
+                    if a is not None and a[0] == 'atom' and not a[3]:
+                        clocks = [x for x in values_in(ev.d['val']) if x.k == 'now']
+                elif ev.kind == 'SQL' and ev.txn and ev.d['stmt'] is not None and ev.d['stmt'].kind == 'select' \
+                        and X1_SQL_ROLES.get(ev.fn.qual) == 'visibility' and _mentions_expire(ev.d['stmt']):
+                    params = ev.d.get('params')
+                    if params is not None and not isinstance(params, V):
+                        for i, sl in enumerate(ev.d['stmt'].slots()):
+                            if sl[0] == 'cmp' and sl[1] == 'expire_time' and i < len(params):
+                                clocks += [x for x in values_in(params[i]) if x.k == 'now']
+                if not clocks:
+                    continue
+                key = f.qual.replace('core.', '')
+                ent = res.setdefault(key, [True, None, f])
+                begin = enter_seq.get(ev.txn[0])
+                for c in clocks:
+                    if begin is not None and c.a[0] < begin:
+                        ent[0] = False
+                        ent[1] = ent[1] or fmt_trace(tr)
+    obs = []
+    for key in sorted(res):
+        ok, wit, f = res[key]
+        obs.append(Ob('X4', '%s/clock-after-lock' % key, ok,
+                      'the expiry comparison inside the transaction uses time.time() read BEFORE BEGIN IMMEDIATE: when '
+                      'the call waits for the write lock past the item\'s expiry time, the expired item is still '
+                      'treated as live (touched back to life, reported present, incremented)', f.loc(), wit))
+    return obs
